@@ -879,16 +879,12 @@ func runC17(args []string) {
 	}
 	if *tier != "thorough" && *only == "" && len(cfg.schemes) == 0 {
 		// quick tier: bn254 has cofactor 1, so forgeries that leave the prime-order subgroup degenerate to off-curve points
-		// there; the pairing-based schemes whose verifiers test subgroup membership also run on a curve with a cofactor
-		// (rotating with the seed)
+		// there; every scheme also runs on a curve with a cofactor, rotating with the seed (the thorough tier runs all)
 		cof := []string{"bls12-381", "bls12-377", "bw6-761", "bls24-315", "bls24-317", "bw6-633"}
 		n := cof[int(*seed)%len(cof)]
 		if run, ok := c17Curves[n]; ok {
-			sub := *cfg
-			sub.schemes = map[string]bool{"pedersen": true, "mpcsetup": true}
-			run(&sub)
-			cfg.total, cfg.files = sub.total, sub.files
-			names = append(names, n+"(pedersen,mpcsetup)")
+			run(cfg) // all schemes: the other pairing curves are generated from the same templates but are separate code
+			names = append(names, n)
 		}
 	}
 	fmt.Printf("c17: %d events in %d traces (curves %v)\n", cfg.total, len(cfg.files), names)
